@@ -271,7 +271,10 @@ pub fn gen_c13(tier: &str, seed: u64, out: &str, mc: Option<&str>) -> Value {
     let nproc = if tier == "thorough" { 300 } else { 40 };
     let mut n_proc = 0u64;
     for pi in 0..nproc {
-        let outp = std::process::Command::new(&me).arg("c13child").arg(format!("{}", seed * 100000 + pi)).arg("16").env("RUST_BACKTRACE", "0").output();
+        let run = || std::process::Command::new(&me).arg("c13child").arg(format!("{}", seed * 100000 + pi)).arg("16").env("RUST_BACKTRACE", "0").output();
+        let mut outp = run();
+        // a failed spawn on a busy machine is retried; three failures in a row are believed (a crash under concurrency)
+        for _ in 0..2 { if outp.as_ref().map(|o| o.status.success()).unwrap_or(false) { break; } std::thread::sleep(std::time::Duration::from_millis(300)); outp = run(); }
         let ok = outp.as_ref().map(|o| o.status.success()).unwrap_or(false);
         if let (true, Ok(o)) = (ok, outp) {
             if let Ok(v) = serde_json::from_slice::<Value>(o.stdout.split(|&b| b == b'\n').next().unwrap_or(&[])) {
